@@ -217,12 +217,39 @@ def blocked_state(proc):
     return info
 
 
+class ConnProxy(object):
+    """Stands between supp.remote and the connection object Client() gave it.  Forwards
+    everything and counts poll() calls.  With jump=True, poll(timeout) behaves as if the clock
+    jumped: it waits at most 50 ms of real time and then says truthfully whether data is there,
+    i.e. "the reply took longer than any timeout the client may have".  A client that never
+    polls, or that polls again until data arrives, is not affected."""
+    JUMP_S = 0.05
+
+    def __init__(self, conn, jump, stats):
+        self.__dict__.update(_c=conn, _jump=jump, _stats=stats)
+
+    def poll(self, timeout=0.0):
+        self._stats['poll_calls'] += 1
+        if self._jump and (timeout is None or timeout > self.JUMP_S):
+            self._stats['poll_timeouts_cut_short'] += 1
+            return self._c.poll(self.JUMP_S)
+        return self._c.poll(timeout)
+
+    def __getattr__(self, name):
+        return getattr(self._c, name)
+
+    def __setattr__(self, name, value):
+        setattr(self._c, name, value)
+
+
 class Session(object):
     """One real supp.remote.Environment + its server child.  Every call is bracketed by a
     call/return log entry and by counters on the client's dumps/loads (the wire boundary)."""
 
-    def __init__(self, logfile=None, env=None):
+    def __init__(self, logfile=None, env=None, clock_jump=False):
         from supp import remote
+        self.clock_jump = clock_jump
+        self.conn_stats = {'poll_calls': 0, 'poll_timeouts_cut_short': 0}
         self.remote = remote
         self.env = remote.Environment(env=env, logfile=logfile)
         self.log = []
@@ -243,6 +270,11 @@ class Session(object):
             received.append(len(data))
             return ol(data, *a, **k)
         remote.dumps, remote.loads = dumps, loads
+
+    def start(self):
+        """launch + connect through the client's own run(), then put the proxy in place"""
+        self.env.run()
+        self.env.conn = ConnProxy(self.env.conn, self.clock_jump, self.conn_stats)
 
     def _fire(self):
         self.hung = True
